@@ -1,4 +1,5 @@
 """C12 - StatusList2021 is an independent-bit vector with one-way revocation (engine M part)."""
+import re
 import z3
 from core import *
 from execu import Exec, State, Refuse, VOver
@@ -345,10 +346,66 @@ def confirm(ctx, name, label, cex, v, funcs, replay):
                    (res.get('detail', ''), label, cex), cex=cex, solver_s=v.secs, queries=v.queries, functions=funcs))
 
 
+def codec_and_status(ctx, prog):
+    """binding audits: the string form is base64(gzip(all bytes)) and back with nothing dropped or capped in between; the status
+    evaluation compares list id *and* purpose before reading the entry"""
+    from audit import Auditor, strip, apps, mentions, subterms, term_str
+    A = Auditor(ctx, prog)
+    RC = {'scenario': 'statuslist_codec'}
+
+    f = prog.one(r'status_list::<impl at [^>]*>::try_from_encoded_str$')
+    paths, ex = A.paths(f, inline=r'try_from_encoded_str::\{closure')
+
+    def r_dec(p):
+        if p.kind != 'return':
+            return 'panic ' + p.msg
+        if not p.is_ok():
+            return None
+        b64 = [c for c in p.find_calls(r'BaseEncoding::decode$') if mentions(c.args, r'^s$') and 'Base64' in term_str(c.args[1]) and 'Base64Url' not in term_str(c.args[1])]
+        gz = [c for c in p.calls if re.search(r'GzDecoder<.*>::new$|GzDecoder::new$', c.name)]
+        rd = [c for c in p.calls if re.search(r'Read>::read_to_end$|::read_to_end$', c.name)]
+        if not b64 or not gz or not rd:
+            return 'not base64-decoded, gunzipped and read to the end'
+        if not any(s_ == b64[0].ret for a in gz[0].args for s_ in subterms(a)):
+            return 'gzip decoder not fed with the base64-decoded bytes'
+        limit = [c for c in p.calls if re.search(r'Read>::take$|::take$|::chain$|::bytes$|truncate$|::split_off$|drain$', c.name)]
+        if limit:
+            return 'decoded data passes through %s: the list can come back shorter than it was written' % limit[0].name.split('::')[-1]
+        if not any(s_ == gz[0].ret or (isinstance(s_, tuple) and s_ and s_[0] == 'post' and s_[1] == gz[0].ret) for a in rd[0].args for s_ in subterms(a)):
+            return 'read_to_end does not read from the gzip decoder itself'
+        return None
+    A.require('try_from_encoded_str/base64-then-gunzip-to-the-end-uncapped', paths, r_dec, replay=RC)
+
+    f = prog.one(r'jwt_credential_validator_utils::<impl at [^>]*>::check_status_with_status_list_2021$')
+    paths, ex = A.paths(f, inline=r'check_status_with_status_list_2021::\{closure')
+
+    def r_sl(p):
+        if p.kind != 'return':
+            return 'panic ' + p.msg
+        ent = [c for c in p.find_calls(r'StatusList2021Credential::entry$')]
+        if not ent:
+            return None            # nothing read from the list: skipped, absent or rejected
+        eqs = [c for c in p.find_calls(r'PartialEq.*>::(eq|ne)$')]
+        def took_equal(c):
+            return p.took(c.ret, 'true' if c.name.endswith('::eq') else 'false')
+        url_ok = any(took_equal(c) and apps(('x', tuple(c.args)), r'status_list_credential$') and mentions(c.args, r'^status_list_credential$') for c in eqs)
+        pur_ok = any(took_equal(c) and len(apps(('x', tuple(c.args)), r'::purpose$')) >= 2 for c in eqs)
+        if not url_ok:
+            return 'list entry read although the status does not name this list credential'
+        if not pur_ok:
+            return 'list entry read although the purposes of status and list were not compared equal'
+        idx = [c for c in p.find_calls(r'StatusList2021Entry::index$')]
+        if not idx or not any(s_ == idx[0].ret for a in ent[0].args for s_ in subterms(a)) and not isinstance(ent[0].argvals[1], VInt):
+            return 'entry read at something other than the status index'
+        return None
+    A.require('check_status_with_status_list_2021/same-list-and-same-purpose-before-reading-the-entry', paths, r_sl, replay={'scenario': 'statuslist_status'})
+
+
 def main(ctx):
     prog, info = load(CRATES)
     ctx.extra['mir'] = info
     guarded(ctx, 'status-list kernels', 'M', lambda: run(ctx, prog, info))
+    guarded(ctx, 'codec and status evaluation', 'M', lambda: codec_and_status(ctx, prog))
     guarded(ctx, 'status-list API harnesses', 'K', lambda: kani_part(ctx))
 
 
